@@ -69,21 +69,22 @@ func c13Canon(b []byte) string {
 	return vh.CanonJSON(t, true)
 }
 
-// c13Class is the narrow classifier for value round-trip failures.
+// c13Class is the narrow classifier for value round-trip failures: the first extension value of a known defect
+// family that does not itself survive print -> parse (a value of such a family that does is not the cause).
 func c13Class(v types.Value) string {
 	cls := ""
 	vh.WalkValues(v, func(x types.Value) {
 		switch t := x.(type) {
 		case types.Duration:
-			if t.ToMilliseconds() == math.MinInt64 && cls == "" {
+			if t.ToMilliseconds() == math.MinInt64 && cls == "" && !vh.ExtValueReparses(t) {
 				cls = "duration-min-int64"
 			}
 		case types.Datetime:
-			if t.Milliseconds() < math.MinInt64+86400000 && cls == "" {
+			if t.Milliseconds() < math.MinInt64+86400000 && cls == "" && !vh.ExtValueReparses(t) {
 				cls = "datetime-first-day"
 			}
 		case types.IPAddr:
-			if t.Addr().Is4In6() && cls == "" {
+			if t.Addr().Is4In6() && cls == "" && !vh.ExtValueReparses(t) {
 				cls = "ip-v4-mapped-ipv6"
 			}
 		}
@@ -325,7 +326,8 @@ func runC13(c *vh.Ctx) {
 	}{
 		{"C13_reserved_key_counterexample", recOf("__entity", recOf("id", types.String("b"), "type", types.String("A"))), "ok " + vh.ShowValue(types.NewEntityUID("A", "b"))},
 		{"C13_reserved_key_rejected_counterexample", recOf("__EXTN", recOf("fn", types.String("nosuch"))), "err"},
-		{"C13_duration_min_counterexample", types.NewDurationFromMillis(math.MinInt64), "err"},
+		// repaired in cedar-go (regression `example` in Properties/C13.lean, formerly C13_duration_min_counterexample)
+		{"regression example Duration(MinInt64)", types.NewDurationFromMillis(math.MinInt64), "ok " + vh.ShowValue(types.NewDurationFromMillis(math.MinInt64))},
 		{"C13_datetime_first_day_counterexample", types.NewDatetimeFromMillis(math.MinInt64), "err"},
 		{"C13_ip_v4mapped_counterexample", v4mapped, "err"},
 	} {
